@@ -53,7 +53,12 @@ fn main() {
                     let harness = viol.props.is_empty();
                     // pin the schedule that led here
                     let mut replay = g.cur_replay.clone();
-                    if let Some(sc) = replay.get_mut("scenario") { sc["strategy"] = serde_json::json!({"Forced": rep.schedule}); }
+                    let mut viol = viol.clone();
+                    if let Some(sc) = replay.get_mut("scenario") {
+                        sc["strategy"] = serde_json::json!({"Forced": rep.schedule});
+                        // non-termination of a pooled solver on a long-arc model is also the business of C15
+                        if let Ok(s) = serde_json::from_value::<solve::Scenario>(sc.clone()) { if arms::is_pooled_longarc(&s) && viol.class == "step-bound" { viol.props.push("C15".into()); } }
+                    }
                     let rec = ViolationRecord { arm: g.arm.clone(), seed: g.cur_seed, run, violations: vec![viol.clone()], replay };
                     println!("{}", serde_json::json!({"violation": rec, "harness_error": harness}));
                     g.next = run + 1;
